@@ -28,6 +28,7 @@ type VerifOperation struct {
 // VerifTask describes a single task, as reachable through operations.
 type VerifTask struct {
 	ActionDigestHash   string
+	ActionInstanceName string
 	InstanceNamePrefix string
 	Platform           string
 	SizeClass          uint32
@@ -420,6 +421,7 @@ func (bq *InMemoryBuildQueue) VerifDumpState() *VerifState {
 			scqKey := t.getCurrentSizeClassQueue().getKey()
 			vt = &VerifTask{
 				ActionDigestHash:   t.actionDigest.GetHashString(),
+				ActionInstanceName: t.actionDigest.GetInstanceName().String(),
 				InstanceNamePrefix: scqKey.platformKey.GetInstanceNamePrefix().String(),
 				Platform:           scqKey.platformKey.GetPlatformString(),
 				SizeClass:          scqKey.sizeClass,
